@@ -526,8 +526,10 @@ func (en *Engine) VerifyFunc(fc *FuncContract) (res *FuncResult) {
 			fr.assumeWF(st, pv)
 			ctx.Assume(Not(Eq(pv.Term(), Nil)))
 			fr.binds = append(fr.binds, pv)
-			sc.vars[fv.Name()] = pv
-			sc.entry[fv.Name()] = pv
+			nv := pv
+			nv.Nav = true // contract expressions see the variable's value (loaded through the reference)
+			sc.vars[fv.Name()] = nv
+			sc.entry[fv.Name()] = nv
 			continue
 		}
 		top.ncell++
@@ -687,6 +689,12 @@ func (fr *Frame) loopScope(st *State, loopAlloc Term, entry ...*State) *Scope {
 					if v, ok := fr.entry.cells[fr.binds[i].Cell]; ok {
 						sc.entry[fv.Name()] = v
 					}
+				} else if i < len(fr.binds) && fr.binds[i].K == KNormal {
+					// captured struct/array variable: its reference (the value is loaded where it is used)
+					nv := fr.binds[i]
+					nv.Nav = true
+					sc.vars[fv.Name()] = nv
+					sc.entry[fv.Name()] = nv
 				}
 			}
 		}
